@@ -60,6 +60,36 @@ func fixedCases() []Case {
 		out = append(out, Case{Kind: "ast", Cls: "clean", Entry: e, Opts: all, Doc: lead})
 	}
 	out = append(out, Case{Kind: "ast", Cls: "clean", Entry: "batch", Opts: all, Doc: showcase(), Warm: []string{warmPool[0], warmPool[3]}})
+	// one Converter, several option sets: constructed (and warmed up) under options that differ from the ones the
+	// judged call passes in the fields the renderer reads - every entry point, with and without earlier calls
+	for i, e := range []string{"bytes", "string", "file", "batch", "bytes", "file"} {
+		prior, now := all, all
+		prior.Tables, prior.TaskList, prior.TOC, prior.TOCMax = false, false, false, 0
+		if i >= 4 { // and the other way round
+			prior, now = now, prior
+		}
+		cs := Case{Kind: "ast", Cls: "clean", Entry: e, Opts: now, Prior: &prior, Doc: showcase()}
+		if i%2 == 1 {
+			cs.Warm = []string{warmPool[3]}
+		}
+		out = append(out, cs)
+	}
+	// addresses written without angle brackets in every inline context (GFM: extended autolinks; without GFM: text)
+	bare := func(s string) Inl { return Inl{K: "bare", S: s} }
+	addresses := []Blk{
+		{K: "h", Level: 2, I: []Inl{tx("Visit"), bare("www.site-h.test")}},
+		para(tx("see"), bare("www.site-p.test/docs/a-b"), tx("or"), bare("http://site-q.test/x"), tx("or"), bare("https://site-r.test/"), tx("or write to"), bare("me@site-s.test"), tx("today")),
+		{K: "ul", Mark: "-", Items: []Item{{B: []Blk{para(tx("item"), bare("www.site-i.test/q?x=1"), tx("end"))}}, {B: []Blk{para(bare("www.site-j.test"))}}}},
+		{K: "bq", B: []Blk{para(tx("quoted"), bare("www.site-b.test/index.html"))}},
+		{K: "tbl", Aligns: []string{"", "right"}, Head: [][]Inl{{tx("site")}, {bare("www.site-t.test")}}, Rows: [][][]Inl{{{bare("www.site-c.test")}, {tx("n"), bare("www.site-d.test/v2/")}}}},
+	}
+	for _, o := range []Opts{all, {GFM: true, Tables: true}, {Math: true, TOC: true, TOCMax: 2}} {
+		d := addresses
+		if !o.GFM { // no pipe tables without GFM
+			d = d[:4]
+		}
+		out = append(out, Case{Kind: "ast", Cls: "clean", Entry: "bytes", Opts: o, Doc: d})
+	}
 	// list items whose own text starts with what looks like a marker: in a list paragraph that is text of the item
 	// (a reader that strips "the bullet" there loses it), two lists of each kind in one document, items after the ninth
 	markers := []Blk{
